@@ -867,3 +867,131 @@ Proof.
   - simpl. intros Ht Ha. inversion Ht; subst. rewrite (H tR eq_refl Ha). reflexivity.
   - simpl. discriminate.
 Qed.
+
+(* ------------------------------------------------------------------ nested base URLs, at every depth *)
+(* based b rules: every loaded @import of the tree (any depth) carries as sheet href the URL obtained by joining its
+   href with the URL of the sheet that contains it -- b for the rules themselves, that joined URL for the rules of the
+   imported sheet, and so on *)
+Inductive based : url -> list rrule -> Prop :=
+  | based_nil b : based b []
+  | based_other b r rules :
+      match r with RImport _ _ _ _ _ => False | _ => True end -> based b rules -> based b (r :: rules)
+  | based_unloaded b h m href sub rules : based b rules -> based b (RImport h m false href sub :: rules)
+  | based_loaded b h m hu full sub rules :
+      raw hu = h -> urljoin b hu = Some full -> based full sub -> based b rules ->
+      based b (RImport h m true (Some (raw full)) sub :: rules).
+
+Lemma based_app b l1 l2 : based b l1 -> based b l2 -> based b (l1 ++ l2).
+Proof.
+  intros H1 H2. induction H1; simpl; auto.
+  - apply based_other; auto.
+  - apply based_unloaded; auto.
+  - eapply based_loaded; eauto.
+Qed.
+
+Lemma set_encoding_based W e b rules r : set_encoding W e rules = Some r -> based b rules -> based b r.
+Proof.
+  unfold set_encoding. intros H Hb.
+  destruct rules as [ | x rest].
+  - destruct (enc_norm W e); [ | destruct charset_init_safe]; inversion H; subst; auto.
+    apply based_other; simpl; auto.
+  - destruct x as [e0 | h m f hr sub | u | a c | t0].
+    + destruct (enc_norm W e); inversion H; subst; auto.
+      inversion Hb; subst. apply based_other; simpl; auto.
+    + destruct (enc_norm W e); [ | destruct charset_init_safe]; inversion H; subst; auto; apply based_other; simpl; auto.
+    + destruct (enc_norm W e); [ | destruct charset_init_safe]; inversion H; subst; auto; apply based_other; simpl; auto.
+    + destruct (enc_norm W e); [ | destruct charset_init_safe]; inversion H; subst; auto; apply based_other; simpl; auto.
+    + destruct (enc_norm W e); [ | destruct charset_init_safe]; inversion H; subst; auto; apply based_other; simpl; auto.
+Qed.
+
+Lemma finish_encoding_based W eo en b rules r : finish_encoding W eo en rules = Some r -> based b rules -> based b r.
+Proof.
+  unfold finish_encoding. destruct (opt_truthy eo), (opt_truthy en); intros H Hb;
+    try (eapply set_encoding_based; eassumption).
+  inversion H; subst; auto.
+Qed.
+
+Definition ld_based (ld : loader) : Prop :=
+  forall full anc o n sr t rules t', ld full anc o n sr t = Normal (rules, t') -> based full rules.
+
+Definition base_of (cwd : url) (base : option url) : url := match base with Some b => b | None => cwd end.
+
+Lemma set_href_based ld W cwd base anc override parent h tr l tr' :
+  ld_based ld ->
+  set_href ld W cwd base anc override parent h tr = Normal (l, tr') -> l_found l = true ->
+  exists full, urljoin (base_of cwd base) h = Some full /\ l_href l = Some (raw full) /\ based full (l_rules l).
+Proof.
+  intros Hld. unfold set_href, base_of. intros H Hf.
+  destruct (negb (nonempty (raw h))). { inversion H; subst. discriminate. }
+  destruct (urljoin _ h) as [full|].
+  2:{ destruct join_guarded; [destruct (is_caught E_ValueError)|]; inversion H; subst; discriminate. }
+  destruct (cycle_guard && mem_str (raw full) anc).
+  { destruct (is_caught raised_on_cycle); inversion H; subst; discriminate. }
+  destruct (readurl W override parent _) as [ | used enctype t | e].
+  - destruct (is_caught raised_on_none); inversion H; subst; discriminate.
+  - destruct (split_enc enctype used) as [eo en].
+    destruct (ld full _ _ _ _ _) as [[rules tr2] | e tr2 | ] eqn:El; try discriminate.
+    + destruct (finish_encoding W eo en rules) as [r | ] eqn:Ef.
+      * inversion H; subst. exists full. simpl. repeat split; auto.
+        eapply finish_encoding_based; eauto.
+      * destruct (is_caught E_AttributeError); inversion H; subst; discriminate.
+    + destruct (is_caught e); inversion H; subst; discriminate.
+  - destruct (is_caught e); inversion H; subst; discriminate.
+Qed.
+
+Lemma based_import b h media l :
+  (l_found l = true -> exists full, urljoin b h = Some full /\ l_href l = Some (raw full) /\ based full (l_rules l)) ->
+  based b [mk_import h media l].
+Proof.
+  intros H. unfold mk_import. destruct (l_found l).
+  - destruct (H eq_refl) as [full [Hj [Hh Hb]]]. rewrite Hh.
+    eapply based_loaded; eauto. apply based_nil.
+  - apply based_unloaded. apply based_nil.
+Qed.
+
+Lemma items_loop_based ld W cwd base anc override newenc :
+  ld_based ld ->
+  forall items expected acc tr rules tr',
+    based (base_of cwd base) acc ->
+    items_loop ld W cwd base anc override newenc items expected acc tr = Normal (rules, tr') ->
+    based (base_of cwd base) rules.
+Proof.
+  intros Hld. induction items as [ | it rest IH]; intros expected acc tr rules tr' Hacc; simpl.
+  - intros H; inversion H; subst; auto.
+  - destruct it as [h media | u | sel p | t0].
+    + destruct (set_href ld W cwd base anc override (parent_encoding newenc acc) h tr) as [[l tr1] | e tr1 | ] eqn:R1;
+        try discriminate.
+      destruct (negb (nonempty (raw h))); [apply IH; auto|].
+      destruct (N.ltb 1 expected); [apply IH; auto|].
+      destruct (l_found l) eqn:Ef.
+      * apply IH. apply based_app; auto. apply based_import. intros _.
+        eapply set_href_based; eauto.
+      * destruct (set_href ld W cwd base anc override _ h tr1) as [[l2 tr2] | e tr2 | ] eqn:R2; try discriminate.
+        apply IH. apply based_app; auto. apply based_import. intros Hf2.
+        eapply set_href_based; eauto.
+    + destruct (N.ltb 2 expected); [apply IH; auto|].
+      apply IH. apply based_app; auto. apply based_other; simpl; auto. apply based_nil.
+    + apply IH. apply based_app; auto. apply based_other; simpl; auto. apply based_nil.
+    + apply IH. apply based_app; auto. apply based_other; simpl; auto. apply based_nil.
+Qed.
+
+Lemma initial_rules_based b sr : based b (initial_rules sr).
+Proof. unfold initial_rules. destruct (s_charset sr); [apply based_other; simpl; auto|]; apply based_nil. Qed.
+
+Lemma parse_src_based W cwd fuel : ld_based (loader_at fuel W cwd).
+Proof.
+  induction fuel as [ | f IH]; intros full anc o n sr t rules t'; unfold loader_at; simpl; [discriminate|].
+  intros H.
+  apply (items_loop_based (loader_at f W cwd) W cwd (Some full) anc o n IH _ _ _ _ _ _ (initial_rules_based full sr) H).
+Qed.
+
+Lemma nested_base_url_deep_lemma fuel W cwd base override sr rules tr :
+  parse_string fuel W cwd base override sr = Normal (rules, tr) -> based (base_of cwd base) rules.
+Proof.
+  unfold parse_string. destruct fuel as [ | f]; simpl; [discriminate|].
+  destruct (items_loop _ W cwd base _ _ _ _ _ _ _) as [[rules0 tr0] | e tr0 | ] eqn:R; try discriminate.
+  destruct (finish_encoding W override None rules0) as [r | ] eqn:Ef; try discriminate.
+  intros H; inversion H; subst.
+  eapply finish_encoding_based; eauto.
+  eapply (items_loop_based (loader_at f W cwd) W cwd base); [apply parse_src_based | apply initial_rules_based | exact R].
+Qed.
